@@ -13,6 +13,7 @@ EXPLANATION = ("Lock-state typestate over push/pop of both stacks (atomic-flag a
                "protocol shapes, exact fullness / emptiness guards on the signed wrapping distance, index agreement, complete full-sync critical sections) and the zero-copy "
                "containers' callback-style consume reads the element out before its slot is released to the pool.")
 EXPLANATION += " R18.5 also requires enqueue / dequeue to answer only after asking the ring (or its own length query) exactly once: no early-out on a side length counter, whose update happens at another instant than the ring's; (R18.8) the LIFO data path of both stacks: push stores its argument at buffer[head], then head + 1, and answers true after storing; pop hands out buffer[head - 1] (read before the decrement, or buffer[head] read after it), head - 1, and answers Some of exactly that element."
+EXPLANATION += ' R18.3 accepts the acquire as swap(true) tested for false or compare_exchange(false -> true) tested for Ok, and the release as store(false) or swap(false) with the answer ignored, with the same ordering requirements.'
 ASSUMPTIONS = ["mutual exclusion + the sequential behaviour covered by the single-threaded unit tests => linearizability of the stacks",
                "linearizability of the atomic ring under contention is not decided statically (see C01/C02 notes)"]
 
